@@ -176,6 +176,11 @@ func loadContracts(dirs map[string]string) (*ContractSet, error) {
 		if src.Pkg != c.Pkg {
 			return nil, fmt.Errorf("%s: flag like %s: must be declared in the package of the interface contract", c.Pos, lk)
 		}
+		var own []string
+		for _, cl := range c.Requires {
+			own = append(own, cl.Text)
+		}
+		c.Flags["ownrequires"] = strings.Join(own, " && ")
 		c.Requires = append(append([]*Clause{}, src.Requires...), c.Requires...)
 		var ens []*Clause
 		for _, cl := range src.Ensures {
